@@ -46,6 +46,18 @@ impl Real {
             Kind::XChaCha20 => Real::X20(XChaCha20::new(k, GenericArray::from_slice(nonce))),
         }
     }
+    /// construct from key/nonce slices that start `kalign` bytes after a 16-byte aligned address
+    /// (the caller's buffers are part of the environment; 0 = the allocator's alignment)
+    pub fn new_placed(kind: Kind, key: &[u8], nonce: &[u8], kalign: usize) -> Real {
+        let ka = kalign % 16;
+        let mut kb = vec![0u8; key.len() + 32];
+        let ko = (16 - (kb.as_ptr() as usize % 16)) % 16 + ka;
+        kb[ko..ko + key.len()].copy_from_slice(key);
+        let mut nb = vec![0u8; nonce.len() + 48];
+        let no = (16 - (nb.as_ptr() as usize % 16)) % 16 + (ka * 7 + 3) % 16;
+        nb[no..no + nonce.len()].copy_from_slice(nonce);
+        Real::new(kind, &kb[ko..ko + key.len()], &nb[no..no + nonce.len()])
+    }
     pub fn try_apply(&mut self, data: &mut [u8]) -> bool {
         with_real!(self, c, c.try_apply_keystream(data).is_ok())
     }
@@ -145,6 +157,7 @@ pub struct Task {
     pub nonce: Vec<u8>,
     pub spec: Stream,
     pub real: Option<Real>,
+    pub kalign: usize,
     /// model: absolute position
     pub pos: u128,
     /// model: last op was a mid-block seek (a lazily pending block exists in a buffering implementation)
@@ -174,8 +187,8 @@ fn len_choices(r: &mut Rng, maxlen: u64) -> u64 {
     v.min(maxlen)
 }
 
-fn task_json(kind: Kind, key: &[u8], nonce: &[u8]) -> J {
-    J::obj().set("kind", J::str(kind.name())).set("key", J::S(hex(key))).set("nonce", J::S(hex(nonce)))
+fn task_json(kind: Kind, key: &[u8], nonce: &[u8], kalign: u64) -> J {
+    J::obj().set("kind", J::str(kind.name())).set("key", J::S(hex(key))).set("nonce", J::S(hex(nonce))).set("kalign", J::U(kalign as u128))
 }
 
 impl S1 {
@@ -234,7 +247,7 @@ impl Scenario for S1 {
         for _ in 0..ntasks {
             if share && first.is_some() {
                 let (k, key, nonce) = first.clone().unwrap();
-                tasks.push(task_json(k, &key, &nonce));
+                tasks.push(task_json(k, &key, &nonce, st.place.below(16)));
                 continue;
             }
             let kind = if sw.chance(ietf_bias, ietf_bias + 2) { Kind::Ietf } else { *sw.pick(&KINDS) };
@@ -251,7 +264,8 @@ impl Scenario for S1 {
             if first.is_none() {
                 first = Some((kind, key.clone(), nonce.clone()));
             }
-            tasks.push(task_json(kind, &key, &nonce));
+            let ka = if st.place.chance(1, 3) { 0 } else { st.place.below(16) };
+            tasks.push(task_json(kind, &key, &nonce, ka));
         }
         // swarm knobs: which op kinds are enabled in this run, length ceiling
         let swarm = J::obj()
@@ -277,8 +291,9 @@ impl Scenario for S1 {
             let mut nonce = unhex(t.s("nonce").unwrap_or(""));
             nonce.resize(kind.nonce_len(), 0);
             let spec = Stream::new(kind, &key, &nonce);
-            let real = guarded(|| Real::new(kind, &key, &nonce)).ok();
-            tasks.push(Task { kind, key, nonce, spec, real, pos: 0, lazy: false, touched: false, failed: false });
+            let kalign = t.u_or("kalign", 0) as usize;
+            let real = guarded(|| Real::new_placed(kind, &key, &nonce, kalign)).ok();
+            tasks.push(Task { kind, key, nonce, spec, real, kalign, pos: 0, lazy: false, touched: false, failed: false });
         }
         World { host, tasks, swarm: setup.get("swarm").cloned().unwrap_or(J::obj()), log: 0, steps: 0, tlogs: vec![] }
     }
@@ -421,7 +436,7 @@ impl Scenario for S1 {
             "renew" => {
                 let t = &mut w.tasks[ti];
                 stats.hit("op.renew");
-                match guarded(|| Real::new(t.kind, &t.key, &t.nonce)) {
+                match guarded(|| Real::new_placed(t.kind, &t.key, &t.nonce, t.kalign)) {
                     Ok(r) => {
                         t.real = Some(r);
                         t.pos = 0;
